@@ -133,7 +133,10 @@ func (db *PreparedStmtDB) prepare(ctx context.Context, conn ConnPool, isTransact
 	if err != nil {
 		cacheStmt.prepareErr = err
 		db.Mux.Lock()
-		delete(db.Stmts, query)
+		// the cache may have been reset meanwhile: only remove our own entry
+		if cur, ok := db.Stmts[query]; ok && cur == &cacheStmt {
+			delete(db.Stmts, query)
+		}
 		db.Mux.Unlock()
 		return Stmt{}, err
 	}
@@ -175,7 +178,10 @@ func (db *PreparedStmtDB) ExecContext(ctx context.Context, query string, args ..
 			defer db.Mux.Unlock()
 			verifhook.At("evict", query)
 			go stmt.Close()
-			delete(db.Stmts, query)
+			// only evict the entry this statement came from, not a newer one stored after a Reset
+			if cur, ok := db.Stmts[query]; ok && cur.Stmt == stmt.Stmt {
+				delete(db.Stmts, query)
+			}
 		}
 	}
 	return result, err
@@ -191,7 +197,10 @@ func (db *PreparedStmtDB) QueryContext(ctx context.Context, query string, args .
 
 			verifhook.At("evict", query)
 			go stmt.Close()
-			delete(db.Stmts, query)
+			// only evict the entry this statement came from, not a newer one stored after a Reset
+			if cur, ok := db.Stmts[query]; ok && cur.Stmt == stmt.Stmt {
+				delete(db.Stmts, query)
+			}
 		}
 	}
 	return rows, err
@@ -246,7 +255,10 @@ func (tx *PreparedStmtTX) ExecContext(ctx context.Context, query string, args ..
 
 			verifhook.At("evict", query)
 			go stmt.Close()
-			delete(tx.PreparedStmtDB.Stmts, query)
+			// only evict the entry this statement came from, not a newer one stored after a Reset
+			if cur, ok := tx.PreparedStmtDB.Stmts[query]; ok && cur.Stmt == stmt.Stmt {
+				delete(tx.PreparedStmtDB.Stmts, query)
+			}
 		}
 	}
 	return result, err
@@ -262,7 +274,10 @@ func (tx *PreparedStmtTX) QueryContext(ctx context.Context, query string, args .
 
 			verifhook.At("evict", query)
 			go stmt.Close()
-			delete(tx.PreparedStmtDB.Stmts, query)
+			// only evict the entry this statement came from, not a newer one stored after a Reset
+			if cur, ok := tx.PreparedStmtDB.Stmts[query]; ok && cur.Stmt == stmt.Stmt {
+				delete(tx.PreparedStmtDB.Stmts, query)
+			}
 		}
 	}
 	return rows, err
